@@ -4,6 +4,11 @@ Driver ops for C16 (model component FileFilter).
   ffilter <opts> <r> <lines>          -> `-` | `L1,B2,X7,…`     (FileFilter::create)
   ffapply <opts> <r> <lines> <cov>    -> <cov>                   (the loop of rewrite_paths)
 
+  fflines x<src>                      -> `x<piece>,x<piece>,…`   (split('\n') + strip_suffix('\r'))
+                                         followed by ` <realLines>`
+  ffsrc <opts> x<m1> … x<m6> x<src>   -> as ffilter: `createSrc` with six LITERAL markers (substring
+                                         match), the model splitting the text itself
+
 <opts>  six 0/1 characters: excl_line excl_start excl_stop excl_br_line excl_br_start excl_br_stop
 <r>     1 = source readable, 0 = read_to_string fails
 <lines> `-` (no line) or comma-separated six-bit vectors, one per source line, same order
@@ -51,6 +56,25 @@ def handleFFApply : List String → String
     match parseOpts o, parseReadable r, parseLineBits ls, parseCov cov with
     | some o, some r, some ms, some c => showCov (rewrite o r ms c)
     | _, _, _, _ => "bad-op"
+  | _ => "bad-op"
+
+def xarg (s : String) : Option (List Nat) :=
+  if s.startsWith "x" then fromHex (s.drop 1).toString else none
+
+def handleFFLines : List String → String
+  | [src] =>
+    match xarg src with
+    | some b =>
+      joinWith "," ((splitLF b).map fun p => "x" ++ toHex (stripCR p)) ++ s!" {realLines b}"
+    | none => "bad-op"
+  | _ => "bad-op"
+
+def handleFFSrc : List String → String
+  | [o, a, b, c, d, e, f, src] =>
+    match parseOpts o, xarg a, xarg b, xarg c, xarg d, xarg e, xarg f, xarg src with
+    | some o, some a, some b, some c, some d, some e, some f, some src =>
+      showFilters (createSrc o (Rx.ofLiterals a b c d e f) (some src))
+    | _, _, _, _, _, _, _, _ => "bad-op"
   | _ => "bad-op"
 
 end Grcov.Drv
